@@ -932,3 +932,22 @@ Proof.
   destruct (run_incarnations c rid st0 hist) as [st conf]. simpl in H.
   by apply (inv_recover represents).
 Qed.
+
+Lemma compaction_get_error_witness :
+  ∃ ops io d rec,
+    let s := run_persist (ex_pcfg as_found) 1 ∅ ops io in
+    w_crashed (s_w s) = false ∧ In d (ps_conf (s_p s)) ∧
+    recover (w_store (s_w s)) 1 = Some rec ∧
+    ∀ d', In d' (r_deltas rec) → d_key d' ≠ d_key d.
+Proof.
+  exists w2_ops, w2_io, (dlt 1 7 1 1).
+  destruct as_found_compaction_get_error as (H1 & _ & H2 & H3). cbv zeta in *.
+  destruct (recover _ 1) as [rec|] eqn:Hr; [|done]. exists rec. split; [done|]. split.
+  - assert (E : ps_conf (s_p (run_persist (ex_pcfg as_found) 1 ∅ w2_ops w2_io)) =
+                [dlt 1 7 1 1; dlt 2 8 2 1]) by (vm_compute; reflexivity).
+    rewrite E. by left.
+  - split; [done|]. intros d' Hd'.
+    assert (Hs : In (sig_of d') (map sig_of (r_deltas rec))) by by apply in_map.
+    rewrite H3 in Hs. destruct Hs as [Hs|[]]. intros Hk. unfold sig_of in Hs. rewrite Hk in Hs.
+    simpl in Hs. discriminate.
+Qed.
